@@ -29,3 +29,40 @@ Section C06.
     In s (inverse hp dof cons Pose kernel kernel5 pose) -> nth 5 s 0 = 0.
   Proof. intros pose s. eapply dof5_inverse_j6_zero; eauto. Qed.
 End C06.
+
+(** ** the same statements for the concrete 5-DOF kernel: finishing glue (Model/Finish.v finish5) over the branch table
+    GENERATED from inverse_intern_5_dof, checked against the generated forward kinematics.  The only assumption left is
+    the meaning of the position comparison (nalgebra norm) as an implication from its verdict. *)
+From VF Require Import Base.Lin Gen.Forward Gen.Inverse Model.Finish Proofs.ForwardP Proofs.InverseP Proofs.FinishP Proofs.SoundP.
+
+Theorem C06_concrete_inverse_5dof :
+  forall (p : Params) (cons : option (@Constraints R)) (compare_xyz : Iso -> Iso -> bool) (near_xyz : Iso -> Iso -> Prop),
+  (forall a b, compare_xyz a b = true -> near_xyz a b) ->
+  forall pose j6 s,
+  In s (inverse_5dof PI cons Iso (the_kernel5 p compare_xyz (ik_theta5_def p)) pose j6) ->
+  near_xyz pose (fwd p (j6_of s)) /\ nth 5 s 0 = j6.
+Proof.
+  intros p cons cmp near Hspec pose j6 s Hs.
+  eapply inverse_5dof_reaches; eauto using ik_theta5_def_len.
+Qed.
+
+Theorem C06_concrete_continuing_5dof :
+  forall (p : Params) (cons : option (@Constraints R)) (compare_xyz : Iso -> Iso -> bool) (near_xyz : Iso -> Iso -> Prop),
+  (forall a b, compare_xyz a b = true -> near_xyz a b) ->
+  forall pose (sentinel : bool) prev s, length (if sentinel then centers cons else prev) = 6%nat ->
+  In s (inverse_continuing_5dof PI cons Iso (the_kernel5 p compare_xyz (ik_theta5_def p)) pose sentinel prev) ->
+  near_xyz pose (fwd p (j6_of s)).
+Proof.
+  intros p cons cmp near Hspec pose sentinel prev s Hl Hs.
+  eapply continuing_5dof_reaches; eauto using ik_theta5_def_len.
+Qed.
+
+(** the branch table is closed under the wrist flip, which keeps tool point and tool axis *)
+Theorem C06_twin5_in_table : forall p pose (i : nat), (i < 4)%nat ->
+  nth (i + 4) (ik_theta5_def p pose) [] = twin5_row_def (nth i (ik_theta5_def p pose) []).
+Proof. exact twin5_in_table_def. Qed.
+Theorem C06_fk_twin5 : forall p q,
+  tr (L6 p (jtwin5 q)) = tr (L6 p q) /\
+  m02 (rot (L6 p (jtwin5 q))) = m02 (rot (L6 p q)) /\ m12 (rot (L6 p (jtwin5 q))) = m12 (rot (L6 p q)) /\
+  m22 (rot (L6 p (jtwin5 q))) = m22 (rot (L6 p q)).
+Proof. exact fk_twin5. Qed.
